@@ -439,7 +439,7 @@ def check_no_tail_regress(ctx, facts):
                         "before the read that follows, leaves the durable position at the start of the block and a StrictlyAtOnce consumer gets the whole tail block again" % bad[0][1])
         else:
             ctx.ok("C09.1e", F, "provisional tail persist carries the in-memory tail offset (0 only when the reader was not in this block)", b.relfile, c.line)
-    ctx.floor("C09.1e", "provisional tail persists in read_next", n, 2)
+    ctx.floor("C09.1e", "provisional tail persists in read_next", n, 1)
 
 
 def _idx_value_flags(facts, b, operand, depth=0):
@@ -503,7 +503,7 @@ def check_position_translation(ctx, facts, rid="C09.3"):
                 ctx.violate(rid, F, "position-translated-by-place", b.relfile, site.line,
                             "the cursor's chain index is set to %s: a persisted position is mapped back to a block by where that block is expected to be in the chain, not by "
                             "finding it; if the writer rotated after the position was persisted the consumer resumes in another block and skips or repeats entries" % sh[:80])
-    ctx.floor(rid, "stores to the cursor's chain index", n, 6)
+    ctx.floor(rid, "stores to the cursor's chain index", n, 2)
 
 
 def fmtfeat_const(e):
